@@ -33,6 +33,8 @@ mod content_collector;
 mod handshake_state;
 mod heartbeat_timers;
 mod io_loop_handle;
+#[cfg(amiquip_verif)]
+pub(crate) mod verif;
 
 pub(crate) use channel_handle::{Channel0Handle, ChannelHandle};
 use channel_slots::ChannelSlots;
@@ -559,6 +561,9 @@ impl IoLoop {
                 }
                 continue;
             }
+
+            #[cfg(amiquip_verif)]
+            verif::record_batch(events.iter().map(|event| event.token().0));
 
             let had_data_to_write = self.inner.has_data_to_write();
 
